@@ -81,7 +81,7 @@ pub fn main(args: &Args) {
     let n = masks(args.tier).len();
     rep.set("supports_receivers", json!(n));
     rep.rule = format!(
-        "{n} compiled FromDeriveInput receivers, one per subset of the eleven shape words ({}), x bodies: 6 structs (four styles + empty braces / parens), every enum of 0..{} variants over the four styles, a union; 32 FromVariant receivers (all subsets of named/tuple/newtype/unit/any) x 4 variant shapes, and each of them gathered over whole enums by a `data: ast::Data<_, _>` member (one error per non-conforming variant); the ShapeSet API: all 16 sets x 4 shapes x 4 carriers. Oracle: the documented table (any; additive words; tuple admits newtype; wrong kind rejected with one error; enum: exactly one error per non-conforming variant; union: error, never a crash) and API verdict == derived verdict. states = (declared set, body) pairs evaluated on the table model, all of them replayed on the compiled receivers; non-trivial = pairs the table rejects.",
+        "{n} compiled FromDeriveInput receivers, one per subset of the eleven shape words ({}), x bodies: 6 structs (four styles + empty braces / parens), every enum of 0..{} variants over the four styles, enums of 5..33 variants with the styles in rotation / all of one style, a union; 32 FromVariant receivers (all subsets of named/tuple/newtype/unit/any) x 4 variant shapes, and each of them gathered over whole enums by a `data: ast::Data<_, _>` member (one error per non-conforming variant); the ShapeSet API: all 16 sets x 4 shapes x 4 carriers. Oracle: the documented table (any; additive words; tuple admits newtype; wrong kind rejected with one error; enum: exactly one error per non-conforming variant; union: error, never a crash) and API verdict == derived verdict. states = (declared set, body) pairs evaluated on the table model, all of them replayed on the compiled receivers; non-trivial = pairs the table rejects.",
         if args.tier == Tier::Thorough { "all 2048" } else { "all of size <= 2 and their complements" },
         args.tier.pick(3, 4)
     );
